@@ -1543,8 +1543,18 @@ pub fn catalogue_cases() -> Vec<ProgramCase> {
         "Ok", "Err", "ok", "err", "Option", "Vec", "Box", "String", "Result", "Some", "None", "candid", "serde", "std",
     ];
     let mut texts: Vec<(String, String)> = Vec::new();
+    // groups of 6 words none of which collide with each other after case conversion (name collisions inside one
+    // record are a separate, known matter and would hide everything else about the program)
+    let mut groups: Vec<Vec<&str>> = Vec::new();
+    for w in WORDS {
+        let key = |x: &str| x.to_lowercase().replace('_', "");
+        match groups.iter_mut().find(|g| g.len() < 6 && g.iter().all(|o| key(o) != key(w))) {
+            Some(g) => g.push(w),
+            None => groups.push(vec![w]),
+        }
+    }
     // keywords as labels, 6 per program, in every position
-    for (k, chunk) in WORDS.chunks(6).enumerate() {
+    for (k, chunk) in groups.iter().enumerate() {
         let fields: Vec<String> = chunk.iter().enumerate().map(|(i, w)| format!("\"{w}\" : {}", ["nat", "text", "opt nat8", "bool", "int", "principal"][i % 6])).collect();
         let cases: Vec<String> = chunk.iter().enumerate().map(|(i, w)| if i % 2 == 0 { format!("\"{w}\"") } else { format!("\"{w}\" : nat") }).collect();
         let meths: Vec<String> = chunk.iter().map(|w| format!("\"{w}\" : (R) -> (V) query")).collect();
@@ -1554,7 +1564,7 @@ pub fn catalogue_cases() -> Vec<ProgramCase> {
         ));
     }
     // keywords as definition names (those Candid accepts unquoted as identifiers)
-    for (k, chunk) in WORDS.chunks(8).enumerate() {
+    for (k, chunk) in groups.iter().enumerate() {
         let ok: Vec<&&str> = chunk.iter().filter(|w| is_ident(w) && !CANDID_TOKENS.contains(w) && !CANDID_PRIMS.contains(w) && **w != "_").collect();
         if ok.is_empty() {
             continue;
